@@ -292,9 +292,17 @@ func TestC09_Rapid(t *testing.T) {
 						sb.WriteRune(r)
 					case 4:
 						sb.WriteRune(rapid.SampledFrom([]rune{'中', '文', 'é', 'Ω', 0xfffe, 0x100, 0xff, 1, 0x7f, '"', '\'', ',', ' '}).Draw(rt, "fnamed"))
+					case 5:
+						sb.WriteRune(rapid.SampledFrom(unicodeSpecials).Draw(rt, "fspecial"))
 					default:
 						sb.WriteRune(rune(rapid.SampledFrom([]rune("abcxyz019 .-")).Draw(rt, "fplain")))
 					}
+				}
+				if i == 0 && j == 0 && rapid.IntRange(0, 9).Draw(rt, "firstspecial") == 0 {
+					// the very first character of the whole text
+					row = append(row, string(rapid.SampledFrom(unicodeSpecials).Draw(rt, "first"))+sb.String())
+					qi = append(qi, rapid.SampledFrom([]int{0, 0, 0, 1, 2}).Draw(rt, "quoteit"))
+					continue
 				}
 				row = append(row, sb.String())
 				qi = append(qi, rapid.SampledFrom([]int{0, 0, 0, 1, 2}).Draw(rt, "quoteit"))
